@@ -1,7 +1,7 @@
 ----------------------------- MODULE FindingsC18 -----------------------------
 (* Finding classes for C18 (see known_findings.json): the minimal syntactic trigger in   *)
 (* the Go type / option set and the specific wrong observation.  "none" = not listed.     *)
-EXTENDS GoSchema
+EXTENDS GoGenModel
 
 (* JSON names that occur more than once among the candidate fields of a struct (after     *)
 (* flattening its untagged embedded structs) somewhere in T                               *)
@@ -38,6 +38,14 @@ MutualRec(T) ==
    \E n, m \in ReachNames(T) : n # m /\ m \in Reach({n}, 3) /\ n \in Reach({m}, 3)
 (* component names whose body is also the body of another component *)
 DupComps(comps) == {comps.k[i] : i \in {i \in DOMAIN comps.k : \E j \in DOMAIN comps.k : j # i /\ comps.v[j] = comps.v[i]}}
+(* some component holds what the generator model (GoGenModel) identifies as the schema of another *)
+(* type: the value of a cycle reference, i.e. the struct in whose field loop the cycle was cut     *)
+ForeignInstalled(line) ==
+   LET st == GenAll(line.T, line.opt).st IN
+   \E i \in DOMAIN line.comps.k :
+      LET cs == CompCands(line.opt, st, line.comps.k[i]) IN
+      /\ line.comps.v[i] \in {c.val : c \in {c \in cs : ~c.own}}
+      /\ line.comps.v[i] \notin {c.val : c \in {c \in cs : c.own}}
 Exporting(opt) == opt \in {"export", "exporttop", "useall_export", "tng_export", "tng_exporttop"}
 
 (* F-C18-1 / F-C18-2: a pointer position whose schema is a bare $ref (cycle cut, or       *)
@@ -57,7 +65,7 @@ ValueClass(line, i, fails, failed) ==
    ELSE IF bothR /\ \A f \in fails : AtRef(f)
         THEN IF Exporting(line.opt) THEN "nullable_lost_behind_component_ref" ELSE "nullable_lost_behind_cycle_ref"
    ELSE IF e.of = e.on /\ \A f \in fails : AtDup(line.T, f) /\ ~AtRef(f) THEN "hidden_embedded_field_overwrites_property"
-   ELSE IF Exporting(line.opt) /\ MutualRec(line.T) /\ DupComps(line.comps) # {} /\ bothR
+   ELSE IF Exporting(line.opt) /\ MutualRec(line.T) /\ ForeignInstalled(line) /\ bothR
         THEN "component_overwritten_in_mutual_recursion"
    ELSE "none"
 
@@ -66,16 +74,17 @@ ValueClass(line, i, fails, failed) ==
 (* is only reached through cycle references (every cut type without component export; the      *)
 (* root type with export but without ExportTopLevelSchema) is looked up under its Go name and   *)
 (* never put into the caller's map: the references to the generated name do not resolve.        *)
+TngMissing(T, opt, missing) ==
+   /\ opt \in {"tng", "tng_export"} /\ missing # {}
+   /\ missing \subseteq {TypeNameOf(opt, n) : n \in IF opt = "tng" THEN ReachNames(T) \cap RecNames
+                                                    ELSE IF StripRootPtr(T).k = "named"
+                                                         THEN {StripRootPtr(T).n} \cap RecNames ELSE {}}
 LineClass(line, failed) ==
    IF failed = "generator_died" /\ SelfEmbedding(line.T) THEN "self_embedded_pointer_diverges"
    ELSE IF /\ failed = "references_do_not_resolve_in_component_map"
-           /\ line.opt \in {"tng", "tng_export"} /\ line.gen = "ok" /\ CompsWellFormed(line.comps)
+           /\ line.gen = "ok" /\ CompsWellFormed(line.comps)
            /\ \A s \in AllS(line.S, line.comps) : ~Has(s, "refraw")
-           /\ MissingNames(line.S, line.comps) # {}
-           /\ MissingNames(line.S, line.comps) \subseteq
-                 {TypeNameOf(line.opt, n) : n \in IF line.opt = "tng" THEN ReachNames(line.T) \cap RecNames
-                                                   ELSE IF StripRootPtr(line.T).k = "named"
-                                                        THEN {StripRootPtr(line.T).n} \cap RecNames ELSE {}}
+           /\ TngMissing(line.T, line.opt, MissingNames(line.S, line.comps))
         THEN "typename_generator_component_not_exported"
    ELSE "none"
 =============================================================================
